@@ -247,8 +247,11 @@ func (c *client) Close() error {
 				return fmt.Errorf("client with step '%s' failed to write client done message with error: %w",
 					c.getRunningStepIDs(), err)
 			} else {
-				panic(fmt.Errorf("potential deadlock after client with step '%s' failed to write client done message with error: %w",
-					c.getRunningStepIDs(), err))
+				// The read loop or a signal writer is still blocked on the channel. That is for
+				// the caller to resolve (by closing the channel); it is not a reason to take the
+				// whole process down.
+				return fmt.Errorf("client with step '%s' failed to write client done message and its goroutines "+
+					"did not finish within the timeout, error: %w", c.getRunningStepIDs(), err)
 			}
 		}
 	}
